@@ -329,6 +329,7 @@ func run(c *hlib.Ctx) {
 	// new kinds go LAST: the random stream of the families above stays what it was
 	runNearSide(c, n/8+1)
 	runOffMesh(c, n/20+1)
+	runLarge(c, n/25+1)
 }
 
 // pick a polygon family
